@@ -684,7 +684,7 @@ pub fn gen_land_general(rng: &mut Rng, allow_script: bool) -> LandSpec {
         salt: rng.next_u64() >> 12,
         quantum: *rng.pick(&[0.5, 0.1, 0.01, 0.001]),
         // score differences from huge down to a few ulps of the score itself
-        amp: *rng.pick(&[1.0, 1.0, 1e-3, 100.0, 1e-15, 1e-12, 1e12]),
+        amp: *rng.pick(&[1.0, 1.0, 1e-3, 100.0, 1e-15, 1e-12, 1e12, 0.0]),
         ladder: vec![],
         cliff: *rng.pick(&[None, None, None, Some(0.3), Some(0.05), Some(0.0)]),
         holes: *rng.pick(&[0.0, 0.0, 0.1, 0.5, 0.9]),
